@@ -142,3 +142,50 @@ func VH_C06_shapes() {
 	_, err := Run(vNewCtx(), b, NewSharedStore())
 	vAssert(err == nil && posts == 1 && nexec == want, "post-called-exactly-once")
 }
+
+// under cancellation too, post runs only after every item has been settled: exec is observed in two
+// monitor steps, so an item in flight (or a slot written after post) is visible
+func VH_C06_cancel() {
+	vUnwind(10)
+	m := &bMon{}
+	bConfig(m)
+	vAssume(m.c >= 1 && m.n >= 1)
+	m.stop = vNondet[bool]("stop")
+	exec := func(ctx context.Context, item Result) (Result, error) {
+		k := bIndex(item)
+		doCancel := false
+		vMonC(1, func() {
+			m.started[k]++
+			m.inflight++
+			if !m.cancelling && vNondetK[bool]("cancelHere", k) {
+				doCancel, m.cancelling = true, true
+			}
+		})
+		if doCancel {
+			m.ctx.cancel(false)
+			vCover("cancelled-while-in-flight")
+		}
+		var res Result
+		vMonC(2, func() {
+			m.inflight--
+			m.finished[k]++
+			m.outTok[k] = &vTok{id: 700 + k}
+			res = NewResult(m.outTok[k])
+		})
+		return res, nil
+	}
+	b := bNode(m, exec)
+	_, err := Run(m.ctx, b, NewSharedStore())
+	if err != nil {
+		return
+	}
+	vAssert(m.posts == 1 && len(m.postRes) == m.n, "post-called-exactly-once")
+	for i := 0; i < m.n && i < len(m.postRes); i++ {
+		r := m.postRes[i]
+		if m.finished[i] > 0 {
+			vAssert(!r.IsError() && vSame(r.Value(), m.outTok[i]), "slot-i-holds-the-value-of-item-i")
+		} else {
+			vAssert(r.IsError(), "slot-of-an-unprocessed-item-is-an-error")
+		}
+	}
+}
